@@ -69,6 +69,7 @@ type Job struct {
 	Params     map[string]int
 	Math       bool
 	NoIfConv   bool
+	FloatSplit bool   // int->float conversions case-split the integer (exact) instead of producing an opaque float
 	Sched      string // "", "det", "sym"
 	Preempt    int
 	Limits     Limits
@@ -122,19 +123,20 @@ func (i *interpreter) wantInit(pkg *ssa.Package) bool {
 
 func newInterpreter(p *Program, job *Job) *interpreter {
 	i := &interpreter{
-		prog:     p.Prog,
-		globals:  make(map[*ssa.Global]*value),
-		sizes:    &types.StdSizes{WordSize: 8, MaxAlign: 8},
-		ctx:      sym.NewCtx(),
-		math:     job.Math,
-		params:   job.Params,
-		initDone: map[*ssa.Package]bool{},
-		pdom:     map[*ssa.Function]*pdomInfo{},
-		pure:     map[*ssa.Function]int8{},
-		regions:  map[*ssa.If]*regionInfo{},
-		models:   map[string]*ssa.Function{},
-		onces:    map[*value]bool{},
-		noIfConv: job.NoIfConv,
+		prog:       p.Prog,
+		globals:    make(map[*ssa.Global]*value),
+		sizes:      &types.StdSizes{WordSize: 8, MaxAlign: 8},
+		ctx:        sym.NewCtx(),
+		math:       job.Math,
+		params:     job.Params,
+		initDone:   map[*ssa.Package]bool{},
+		pdom:       map[*ssa.Function]*pdomInfo{},
+		pure:       map[*ssa.Function]int8{},
+		regions:    map[*ssa.If]*regionInfo{},
+		models:     map[string]*ssa.Function{},
+		onces:      map[*value]bool{},
+		noIfConv:   job.NoIfConv,
+		floatSplit: job.FloatSplit,
 	}
 	allow := map[string]bool{}
 	for k, v := range defaultInitAllow {
